@@ -156,6 +156,9 @@ void ParseBoostArgs(int restricted_argc, int real_argc, char *argv[], Options &o
     exit(1);
   }
   po::notify(vm);
+  // Zero workers means nobody consumes the input queue: the first record
+  // would block forever.  hardware_concurrency() may legitimately return 0.
+  UTIL_THROW_IF2(!out.workers, "The number of jobs must be at least 1");
 }
 
 // Figuring out where the command line for the child is.
